@@ -115,7 +115,7 @@ Fillers == <<
    Look(La), NLook(La), LookB(La), Rep(Grp(201, Opt(La)), 2, 2, TRUE), Keep, Cat(<<La, Keep, Lb>>),
    Alt(<<Grp(201, La), Grp(202, Lb)>>), Rep(Cat(<<La, Lb>>), 0, 1, TRUE),
    Rep(Atom(La), 0, 0, TRUE), Rep(Cat(<<La, Look(Lb)>>), 0, 0, TRUE), Rep(Lb, 0, 0, TRUE),
-   Cat(<<Lit("U"), Lit("Q")>>), Alt(<<Lit("K"), Lit("T"), La>>),          \* characters whose code points exercise the hex / unicode escapes (5f, 1f600, e01, 3042)
+   Cat(<<Lit("U"), Lit("Q")>>), Alt(<<Lit("K"), Lit("T"), La>>), LitI("E"), Cat(<<LitI("E"), Lb>>),          \* characters whose code points exercise the hex / unicode escapes (5f, 1f600, e01, 3042)
    Rep(La, 1, 2, FALSE), Rep(Cat(<<La, Look(AnyC)>>), 1, 2, FALSE), Rep(Alt(<<La, Lb>>), 0, 2, FALSE), Opt(Plus(La)), Opt(Star(Cat(<<La, Lb>>)))
 >>
 
@@ -308,7 +308,7 @@ ProfIter ==
 
 \* C14 space: mixed-case alphabet, (?i:..) and (?-i:..) nodes
 ProfCase ==
-   [atoms |-> {Lit("a"), Lit("B"), LitI("b"), LitCS("a"), Class(<<"a", "B">>), NClass(<<"a">>), AnyC, Asrt("wb")},
+   [atoms |-> {Lit("a"), Lit("B"), LitI("b"), LitCS("a"), LitI("E"), Class(<<"a", "B">>), NClass(<<"a">>), AnyC, Asrt("wb")},     \* LitI("E"): a cased NON-ASCII character
     quants |-> Quants4, looks |-> TRUE, lookbs |-> FALSE, atomics |-> TRUE, groups |-> TRUE,
     brefs |-> TRUE, bexs |-> FALSE, conds |-> FALSE, unrestricted |-> FALSE]
 
